@@ -1306,3 +1306,81 @@ Example C12_roundtrip_reader_example :
   frame_wf 64 f = true /\ pp_block_nonempty f = true /\
   continuations_needed 64 f = 2 /\ calc_max_continuation_frames 16777216 16384 = 1280.
 Proof. vm_compute. repeat split; reflexivity. Qed.
+
+
+(* ---------------------------------------------------------------------------------------- *)
+(* HeaderBlock::is_malformed (literal instance): once a fragment made the block malformed, no
+   later fragment can make it valid again, however the block is cut into HEADERS / CONTINUATION
+   fragments *)
+
+Lemma lit_loop_malformed_sticky : forall fuel max_hls st hsz buf oc rest st',
+  lit_loop fuel max_hls st hsz true buf = (oc, rest, st') ->
+  oc <> HpOk /\ lt_malformed st' = true.
+Proof.
+  induction fuel as [|fuel IH]; intros max_hls st hsz buf oc rest st' H; cbn [lit_loop] in H.
+  - injection H as <- <- <-. split; [discriminate | reflexivity].
+  - destruct buf as [|b after_type]; [injection H as <- <- <-; split; [discriminate | reflexivity]|].
+    destruct (negb ((b =? 0) || (b =? 16))); [injection H as <- <- <-; split; [discriminate | reflexivity]|].
+    destruct (decode_str after_type) as [name after_name| | |];
+      try (injection H as <- <- <-; split; [discriminate | reflexivity]).
+    destruct (decode_str after_name) as [value rest0| | |];
+      try (injection H as <- <- <-; split; [discriminate | reflexivity]).
+    destruct (negb _); [injection H as <- <- <-; split; [discriminate | reflexivity]|].
+    destruct (_ || _).
+    + eapply IH; exact H.
+    + destruct (_ <? _); [injection H as <- <- <-; split; [discriminate | reflexivity]|].
+      eapply IH; exact H.
+Qed.
+
+(* the flag a call of load leaves behind is at least the one it started from *)
+Lemma lit_loop_malformed_mono : forall fuel max_hls st hsz m buf oc rest st',
+  lit_loop fuel max_hls st hsz m buf = (oc, rest, st') ->
+  m = true -> lt_malformed st' = true.
+Proof.
+  intros fuel max_hls st hsz m buf oc rest st' H Hm. subst m.
+  eapply lit_loop_malformed_sticky; exact H.
+Qed.
+
+(* a load that meets a connection-specific field ends with the flag set, also when it ends NeedMore *)
+Theorem hp_lit_malformed_sticky max_hls (hs : lit_state) buf :
+  lt_malformed hs = true ->
+  let '(oc, rest, hs') := hp_load hp_lit max_hls hs buf in
+  oc <> HpOk /\ lt_malformed hs' = true.
+Proof.
+  intros Hm. cbn [hp_lit hp_load]. rewrite Hm.
+  destruct (lit_loop (S (length buf)) max_hls hs (lt_field_size hs) true buf) as [[oc rest] hs'] eqn:E.
+  eapply lit_loop_malformed_sticky; exact E.
+Qed.
+
+(* hence: with a header block open whose state is already malformed, no CONTINUATION -- in particular
+   not the one carrying END_HEADERS -- makes decode_frame deliver the frame *)
+Theorem malformed_block_never_delivered mh mc p (hs : lit_state) bytes f hs'' :
+  lt_malformed hs = true ->
+  snd (decode_frame hp_lit mh mc (Some p) hs bytes) <> DEvent (EvHeaders f hs'').
+Proof.
+  intros Hm. unfold decode_frame.
+  destruct (parse_head bytes) as [[h payload]|] eqn:E; [|discriminate].
+  destruct (kind_new (h_kind h)) eqn:K; cbn [andb negb snd]; try discriminate.
+  rewrite (load_frame_continuation bytes h payload E K).
+  destruct (negb (frame_sid (pt_frame p) =? h_sid h)); [discriminate|].
+  destruct (_ && _); [discriminate|].
+  destruct (_ && _); [discriminate|].
+  pose proof (hp_lit_malformed_sticky mh hs (pt_buf p ++ payload) Hm) as Hst.
+  destruct (hp_load hp_lit mh hs (pt_buf p ++ payload)) as [[oc rest] hs2]. destruct Hst as [Hoc _].
+  destruct oc; try congruence; cbn [hpack_verdict snd];
+    destruct (has_bit (h_flag h) continuation_END_HEADERS); discriminate.
+Qed.
+
+(* regression for the repaired defect (commit "a header block stays malformed when it continues in a
+   CONTINUATION frame"): a block with `connection: close` is refused with a stream error whether it
+   arrives in one frame, or cut in the middle of the field that follows the offending one *)
+Example malformed_verdict_survives_fragmentation :
+  let lit name value := [0; N.of_nat (length name)] ++ name ++ [N.of_nat (length value)] ++ value in
+  let block := lit [120; 45; 97] [49] ++ lit s_connection [99; 108; 111; 115; 101] ++ lit [120; 45; 98] [50] in
+  let head ty fl len := [0; 0; len; ty; fl; 0; 0; 0; 1] in
+  let cut := 27 in
+  let whole := head 1 4 (lenN block) ++ block in
+  let split := head 1 0 cut ++ takeN cut block ++ head 9 4 (lenN block - cut) ++ dropN cut block in
+  snd (feed hp_lit (rinit lit_empty 16384 16777216) whole) = [EvError (PEReset 1 reason_PROTOCOL_ERROR)] /\
+  snd (feed hp_lit (rinit lit_empty 16384 16777216) split) = [EvError (PEReset 1 reason_PROTOCOL_ERROR)].
+Proof. vm_compute. split; reflexivity. Qed.
